@@ -50,6 +50,16 @@ def run(data):
         for i, e in dim:
             d = d * fund[i - 1] ** e
         d.unit(name, name)
+    if data.get("compare_before"):
+        # the application compares (and tries to convert) quantities of the new units BEFORE it declares how they relate: every such
+        # attempt fails or says "not equal", and must be without consequence once the declarations are made
+        import operator
+        names = [n for n, _ in data.get("define", [])]
+        for x in names:
+            for y in names:
+                for op in (operator.eq, operator.lt, operator.ge, lambda a_, b_: a_.in_unit(b_.unit), operator.add):
+                    try: op(Quantity(2, Unit._by_name[x]), Quantity(1, Unit._by_name[y]))
+                    except Exception: pass  # noqa
     for ua, m, ub in data.get("decls", []):
         mk_unit(ua).equals(Quantity(mk_num(m), mk_unit(ub)))
     res = []
